@@ -1,4 +1,4 @@
-// GENERATED on every run by vlib/extract.py from /repo -- do not edit
+// GENERATED on every run by vlib/extract.py from /tmp/seedcheck-20768 -- do not edit
 #![allow(unused_imports, unused_variables, unused_mut, dead_code, unused_parens, unused_braces, non_snake_case)]
 use vstd::prelude::*;
 use core::cmp::Ordering;
@@ -238,6 +238,40 @@ pub proof fn lemma_lower_ascii_fixed(s: Seq<char>)
     ensures lower_ascii_seq(s) == s
 {
     assert(lower_ascii_seq(s) =~= s);
+}
+
+// ---- idempotence of lower-casing (C10, C12) ----
+/// A-validated (exhaustive over all scalar values): lower-casing the lower-case mapping of a char changes nothing
+#[verifier::external_body]
+pub proof fn axiom_lower_idem_char(c: char)
+    ensures lower_seq(u_to_lower(c)) == u_to_lower(c)
+{ }
+
+pub proof fn lemma_lower_seq_concat(a: Seq<char>, b: Seq<char>)
+    ensures lower_seq(a + b) == lower_seq(a) + lower_seq(b)
+    decreases b.len()
+{
+    if b.len() == 0 {
+        assert(a + b =~= a);
+        assert(lower_seq(a) + lower_seq(b) =~= lower_seq(a));
+    } else {
+        assert((a + b).drop_last() =~= a + b.drop_last());
+        assert((a + b).last() == b.last());
+        lemma_lower_seq_concat(a, b.drop_last());
+        assert(lower_seq(a + b) =~= lower_seq(a) + lower_seq(b));
+    }
+}
+
+/// lower-casing is a projection: applying it twice is applying it once
+pub proof fn lemma_lower_seq_idem(s: Seq<char>)
+    ensures lower_seq(lower_seq(s)) == lower_seq(s)
+    decreases s.len()
+{
+    if s.len() > 0 {
+        lemma_lower_seq_idem(s.drop_last());
+        axiom_lower_idem_char(s.last());
+        lemma_lower_seq_concat(lower_seq(s.drop_last()), u_to_lower(s.last()));
+    }
 }
 
 // ---- theory: split.rs ----
@@ -541,6 +575,21 @@ pub proof fn lemma_lt_asym(a: Seq<char>, b: Seq<char>)
 {
     lemma_lex_flip(a, b);
 }
+
+/// in a strictly ascending list, the value paired with key `k` is the one at `pos_of(k)`
+pub proof fn lemma_has_pair_pos(v: Seq<(QualifierKey, SmallString)>, k: Seq<char>)
+    requires keys_sorted(v)
+    ensures forall|val: Seq<char>| has_pair(v, k, val) ==> 0 <= pos_of(v, k) < v.len() && v[pos_of(v, k)].0.0@ == k && v[pos_of(v, k)].1@ == val
+{
+    assert forall|val: Seq<char>| has_pair(v, k, val) implies 0 <= pos_of(v, k) < v.len() && v[pos_of(v, k)].0.0@ == k && v[pos_of(v, k)].1@ == val by {
+        let i = choose|i: int| 0 <= i < v.len() && #[trigger] v[i].0.0@ == k && v[i].1@ == val;
+        assert forall|j: int| 0 <= j < i implies str_lt(#[trigger] v[j].0.0@, k) by { assert(str_lt(v[j].0.0@, v[i].0.0@)); }
+        assert forall|j: int| i <= j < v.len() implies !str_lt(#[trigger] v[j].0.0@, k) by {
+            if j == i { lemma_lt_irrefl(k); } else { assert(str_lt(v[i].0.0@, v[j].0.0@)); lemma_lt_asym(k, v[j].0.0@); }
+        }
+        lemma_pos_of(v, k, i);
+    }
+}
 // ---- R9: stub of std's AsRef, with a specification of the text it exposes ----
 pub uninterp spec fn view_of<T: ?Sized>(t: &T) -> Seq<char>;
 #[verifier::external_body]
@@ -686,6 +735,19 @@ pub open spec fn shape_rel(t0: Seq<char>, p0: PurlParts, t1: Seq<char>, p1: Purl
     && (!valid_type(t0) ==> r == Err::<(), ParseError>(ParseError::InvalidPackageType))
 }
 
+
+/// C10 / C13 (type string): validating and ASCII-lower-casing twice is doing it once
+pub proof fn lemma_shape_idem(t0: Seq<char>, p0: PurlParts, t1: Seq<char>, p1: PurlParts, t2: Seq<char>, p2: PurlParts, r2: Result<(), ParseError>)
+    requires shape_rel(t0, p0, t1, p1, Ok::<(), ParseError>(())), shape_rel(t1, p1, t2, p2, r2)
+    ensures r2 is Ok, t2 == t1, p2 == p1
+{
+    assert(valid_type(t0));
+    let l = lower_ascii_seq(t0);
+    assert(t1 == l);
+    assert forall|i: int| 0 <= i < l.len() implies type_char(#[trigger] l[i]) && !ascii_upper_c(l[i]) by { assert(type_char(t0[i])); }
+    assert(valid_type(l));
+    lemma_lower_ascii_fixed(l);
+}
 
 // ---- unit theory.cksum  <= (contracts):0 ----
 // ---- checksum qualifier: typed value <-> text (C04, C12), written from the statements ----
@@ -1035,6 +1097,46 @@ pub proof fn lemma_listing_covers(es: VS, m: Map<Seq<char>, Seq<char>>, k: Seq<c
     let i = choose|i: int| 0 <= i < es.len() && #[trigger] es[i].0 == k;
 }
 
+// ---- typed accessors of Checksum (C12) ----
+/// representation invariant of Checksum: every algorithm name is stored lower-cased
+pub open spec fn keys_lower(m: Map<Seq<char>, Seq<char>>) -> bool { forall|k: Seq<char>| #[trigger] m.contains_key(k) ==> lower_seq(k) == k }
+
+/// `m.get_mut(k)`
+#[verifier::external_body]
+pub fn x_hm_get_mut<'a, 'b>(m: &'b mut HashMap<SmallString, Cow<'a, str>>, k: &str) -> (r: Option<&'b mut Cow<'a, str>>)
+    ensures match r {
+        Some(v) => hm_view(*old(m)).contains_key(k@) && (*v)@ == hm_view(*old(m))[k@]
+            && hm_view(*final(m)) == hm_view(*old(m)).insert(k@, (*final(v))@),
+        None => !hm_view(*old(m)).contains_key(k@) && hm_view(*final(m)) == hm_view(*old(m)),
+    }
+{ unimplemented!() }
+/// `m.get(k)`
+#[verifier::external_body]
+pub fn x_hm_get<'a, 'b>(m: &'b HashMap<SmallString, Cow<'a, str>>, k: &str) -> (r: Option<&'b Cow<'a, str>>)
+    ensures match r {
+        Some(v) => hm_view(*m).contains_key(k@) && (*v)@ == hm_view(*m)[k@],
+        None => !hm_view(*m).contains_key(k@),
+    }
+{ unimplemented!() }
+/// `m.remove(k)`
+#[verifier::external_body]
+pub fn x_hm_remove<'a>(m: &mut HashMap<SmallString, Cow<'a, str>>, k: &str) -> (r: Option<Cow<'a, str>>)
+    ensures hm_view(*final(m)) == hm_view(*old(m)).remove(k@)
+{ unimplemented!() }
+
+pub proof fn lemma_ck_fold_keys_lower(ps: Seq<Seq<char>>)
+    requires ck_fold(ps) is Some
+    ensures keys_lower(ck_fold(ps)->Some_0)
+    decreases ps.len()
+{
+    if ps.len() > 0 {
+        lemma_ck_fold_keys_lower(ps.drop_last());
+        let p = ps.last();
+        let i = last_index_of(p, ':');
+        lemma_lower_seq_idem(p.subrange(0, i));
+    }
+}
+
 // ---- unit T.Checksum  <= purl/src/qualifiers/well_known.rs:99 ----
 pub struct Checksum<'a> {
     pub algorithms: HashMap<SmallString, Cow<'a, str>>,
@@ -1046,18 +1148,51 @@ impl<'a> Checksum<'a> {
     pub open spec fn entries(&self) -> Map<Seq<char>, Seq<char>> { hm_view(self.algorithms) }
 }
 
-// ---- unit U-cktext.checksum_to_text  <= purl/src/qualifiers/well_known.rs:133 ----
-#[verifier::external_body]
-pub fn checksum_to_text<'a>(value: Checksum<'a>) -> (r: Result<SmallString, ParseError>)
-    ensures match r {
+// ---- unit theory.tryfrom  <= (contracts):0 ----
+// ---- R9: stub of std's TryFrom with a relation describing what an implementation returns ----
+pub trait TryFrom<T>: Sized {
+    type Error;
+    spec fn try_from_rel(t: T, r: Result<Self, Self::Error>) -> bool;
+    fn try_from(t: T) -> (r: Result<Self, Self::Error>)
+        ensures Self::try_from_rel(t, r);
+}
+pub assume_specification<T, E> [Option::<Result<T, E>>::transpose] (o: Option<Result<T, E>>) -> (r: Result<Option<T>, E>)
+    ensures match o {
+        None => r == Ok::<Option<T>, E>(None),
+        Some(Ok(x)) => r == Ok::<Option<T>, E>(Some(x)),
+        Some(Err(e)) => r == Err::<Option<T>, E>(e),
+    };
+
+impl<'a> TryFrom<Checksum<'a>> for SmallString {
+// ---- unit spec.cktext  <= (contracts):0 ----
+    type Error = ParseError;
+    open spec fn try_from_rel(value: Checksum<'a>, r: Result<SmallString, ParseError>) -> bool { match r {
         // refused exactly when some entry is not an even number of hex digits
         Err(e) => e == ParseError::InvalidQualifier && !all_values_hex(value.entries()),
         // otherwise: the entries in strictly ascending algorithm order, lower-case hex -- one text, for EVERY order in which the map yields them
         Ok(t) => all_values_hex(value.entries()) && t@ == canon_text(value.entries())
             // the text of a non-empty entry set is non-empty
             && ((exists|k: Seq<char>| #[trigger] value.entries().contains_key(k)) ==> t@.len() > 0),
-    }
+    } }
+// ---- unit U-cktext.checksum_to_text  <= purl/src/qualifiers/well_known.rs:133 ----
+#[verifier::external_body]
+fn try_from(value: Checksum<'a>) -> (r: Result<Self, Self::Error>)
+
 { unimplemented!() }
+}
+impl<'a> TryFrom<&'a str> for Checksum<'a> {
+// ---- unit spec.ckparse  <= (contracts):0 ----
+    type Error = ParseError;
+    open spec fn try_from_rel(value: &'a str, r: Result<Checksum<'a>, ParseError>) -> bool { match r {
+        Ok(c) => ck_parse(value@) == Some(c.entries()) && keys_lower(c.entries()),
+        Err(e) => e == ParseError::InvalidQualifier && ck_parse(value@) is None,
+    } }
+// ---- unit U-ckparse.checksum_from_text  <= purl/src/qualifiers/well_known.rs:110 ----
+#[verifier::external_body]
+fn try_from(value: &'a str) -> (r: Result<Self, Self::Error>)
+
+{ unimplemented!() }
+}
 // ---- unit T.KnownQualifierKey  <= purl/src/qualifiers/well_known.rs:17 ----
 pub trait KnownQualifierKey {
     const KEY: &'static str;
@@ -1190,19 +1325,6 @@ pub fn x_retain_nonempty(q: &mut Qualifiers)
     ensures final(q).qualifiers@ == nonempty_part(old(q).qualifiers@)
 { unimplemented!() }
 
-/// `q.try_get_typed::<Checksum>()`  = `q.get("checksum").map(Checksum::try_from).transpose()`
-/// (ASSUMED composition of Option::map / transpose; Qualifiers::get and Checksum::try_from are verified in groups qual / cksum)
-#[verifier::external_body]
-pub fn x_try_get_typed_checksum<'a>(q: &'a Qualifiers) -> (r: Result<Option<Checksum<'a>>, ParseError>)
-    requires wf_seq(q.qualifiers@)
-    ensures
-        !has_key(q.qualifiers@, checksum_key()) ==> r is Ok && r->Ok_0 is None,
-        has_key(q.qualifiers@, checksum_key()) ==> match ck_parse(q.qualifiers@[pos_of(q.qualifiers@, checksum_key())].1@) {
-            None => r is Err && r->Err_0 == ParseError::InvalidQualifier,
-            Some(m) => r is Ok && r->Ok_0 is Some && r->Ok_0->Some_0.entries() == m,
-        },
-{ unimplemented!() }
-
 pub proof fn lemma_checksum_key()
     ensures "checksum"@ == checksum_key(), valid_key(checksum_key()), lower_ascii_seq(checksum_key()) == checksum_key()
 {
@@ -1327,6 +1449,20 @@ pub fn remove_typed<Q>(&mut self) where Q: KnownQualifierKey,
             !(valid_key(Q::KEY@) && has_key(old(self).qualifiers@, lower_ascii_seq(Q::KEY@))) ==> final(self).qualifiers@ == old(self).qualifiers@,
             valid_key(Q::KEY@) && has_key(old(self).qualifiers@, lower_ascii_seq(Q::KEY@)) ==>
                 final(self).qualifiers@ == old(self).qualifiers@.remove(pos_of(old(self).qualifiers@, lower_ascii_seq(Q::KEY@)))
+{ unimplemented!() }
+// ---- unit U-qmap.try_get_typed  <= purl/src/qualifiers.rs:134 ----
+#[verifier::external_body]
+pub fn try_get_typed<'a, Q>(&'a self) -> (r: Result<Option<Q>, Q::Error>)
+where Q: TryFrom<&'a str> + KnownQualifierKey,
+        requires self.wf()
+        ensures
+            // absent (or undeclarable) key: nothing to convert
+            !(valid_key(Q::KEY@) && has_key(self.qualifiers@, lower_ascii_seq(Q::KEY@))) ==> r is Ok && r->Ok_0 is None,
+            // present: exactly one conversion of the stored text, its outcome passed through
+            valid_key(Q::KEY@) && has_key(self.qualifiers@, lower_ascii_seq(Q::KEY@)) ==>
+                exists|s: &'a str, x: Result<Q, Q::Error>|
+                    s@ == self.qualifiers@[pos_of(self.qualifiers@, lower_ascii_seq(Q::KEY@))].1@ && #[trigger] Q::try_from_rel(s, x)
+                    && match x { Ok(q) => r == Ok::<Option<Q>, Q::Error>(Some(q)), Err(e) => r == Err::<Option<Q>, Q::Error>(e) },
 { unimplemented!() }
 }
 impl<T> GenericPurlBuilder<T> {
@@ -1507,8 +1643,8 @@ if this.parts.name.is_empty() {
                 if ck_parse(tx) is Some { lemma_ck_parse_nonempty(tx); }
             }
         }
-if let Some(checksum) = (match x_try_get_typed_checksum(&this.parts.qualifiers) { Ok(v_) => v_, Err(e_) => return Err(From::from(e_)) }) {
-            this.parts.qualifiers.insert(Checksum::KEY, (match checksum_to_text(checksum) { Ok(v_) => v_, Err(e_) => return Err(From::from(e_)) }))?;
+if let Some(checksum) = (match this.parts.qualifiers.try_get_typed::<Checksum>() { Ok(v_) => v_, Err(e_) => return Err(From::from(e_)) }) {
+            this.parts.qualifiers.insert(Checksum::KEY, (match <SmallString as TryFrom<Checksum>>::try_from(checksum) { Ok(v_) => v_, Err(e_) => return Err(From::from(e_)) }))?;
         }
         let GenericPurlBuilder { package_type, parts } = this;
         Ok(GenericPurl { package_type, parts })
